@@ -1950,6 +1950,7 @@ function visitors.Switch(context, node)
       valtype)
   end
   local done = valnode.done
+  local casevalues = {}
   for i=1,#casepairs,2 do
     local caseexprs, caseblock = casepairs[i], casepairs[i+1]
     for j=1,#caseexprs do
@@ -1959,6 +1960,11 @@ function visitors.Switch(context, node)
              (casenode.attr.comptime or casenode.attr.cimport)) then
         casenode:raisef("`case` statement must evaluate to a compile time integral value")
       end
+      local casevalue = casenode.attr.value and tostring(casenode.attr.value)
+      if casevalue and casevalues[casevalue] and casevalues[casevalue] ~= casenode then
+        casenode:raisef("`case` value %s is already used in another case of the `switch` statement", casevalue)
+      end
+      if casevalue then casevalues[casevalue] = casenode end
       done = done and casenode.done and true
     end
     done = done and caseblock.done and true
